@@ -38,7 +38,8 @@ type c07Variant struct {
 	PreludeCwd  []string          `json:"prelude_cwd,omitempty"`  // the directory the process stands in during earlier invocation i
 	RelOut      string            `json:"rel_out,omitempty"`      // the observed invocation names its output directory relative to the working directory (-o RelOut); RelOutAbs is where that is
 	RelOutAbs   string            `json:"rel_out_abs,omitempty"`
-	SdkWd       string            `json:"sdk_wd,omitempty"` // the observed invocation is sdk.RunThriftgoAsSDK(SdkWd, ...); its baseline is the same call with nothing before it
+	SlowPlugin  int               `json:"slow_plugin,omitempty"` // 1 / 2: the first / second plugin takes a few (simulated) seconds before it answers; how fast a plugin is must not show in the output
+	SdkWd       string            `json:"sdk_wd,omitempty"`      // the observed invocation is sdk.RunThriftgoAsSDK(SdkWd, ...); its baseline is the same call with nothing before it
 }
 
 // c07BaseFor: the run a variant is compared with.
@@ -86,7 +87,23 @@ func (p *c07Pair) spec(v *c07Variant) *simrt.Spec {
 			{"ip": "x", "content": "patched, see @@thriftgo_insertion_point(y) "},
 			{"ip": "y", "content": " end"},
 		}
-		cc.Plugins = []plugSpec{{Name: "rec", Path: "/plug/rec", Opts: "k=v,flag", Script: map[string]interface{}{"decode": true, "out_prefix": "$OUT", "files": files}, Version: p.PlugVer}}
+		sc1 := map[string]interface{}{"decode": true, "out_prefix": "$OUT", "files": files}
+		// a second plugin that patches the same insertion point and hands in a file of a name the first one used
+		files2 := []map[string]interface{}{
+			{"name": "dup/a.go", "content": "package dup\n\nvar FromTheSecondPlugin = 9\n"},
+			{"name": "dup/notes2.txt", "content": "second\n"},
+			{"ip": "x", "content": "[second plugin] "},
+		}
+		sc2 := map[string]interface{}{"decode": true, "out_prefix": "$OUT", "files": files2}
+		switch v.SlowPlugin {
+		case 1:
+			sc1["delay_before_ns"] = int64(3 * time.Second)
+		case 2:
+			sc2["delay_before_ns"] = int64(2 * time.Second)
+			sc2["delay_mid_ns"] = int64(time.Second)
+		}
+		cc.Plugins = []plugSpec{{Name: "rec", Path: "/plug/rec", Opts: "k=v,flag", Script: sc1, Version: p.PlugVer},
+			{Name: "rec2", Path: "/plug/rec2", Opts: "second", Script: sc2, Version: p.PlugVer}}
 	}
 	cc.Prelude = v.Prelude
 	cc.SdkWd = v.SdkWd
@@ -417,6 +434,10 @@ func c07Check(a *artefacts, tier string, seed uint64, replay string) int {
 			{Name: "maps-random-3+stale", MapMode: "random", MapSeed: pr.Uint64(), Strategy: "pct", SchedSeed: pr.Uint64(), Parallelism: 8, Stale: true},
 			{Name: "maps-random-4", MapMode: "random", MapSeed: pr.Uint64(), Strategy: "random", SchedSeed: pr.Uint64(), Parallelism: 3},
 		}
+		if pair.Plugin {
+			vars[1].SlowPlugin = 1 + pr.Intn(2)
+			vars[4].SlowPlugin = 1 + pr.Intn(2)
+		}
 		if len(vars) > K-1 {
 			vars = vars[:K-1]
 		}
@@ -714,6 +735,7 @@ func c07Isolate(a *artefacts, f *c07Found) []*c07Found {
 	try(func(w *c07Variant) { w.Block = "" })
 	try(func(w *c07Variant) { w.PreludeWd = nil })
 	try(func(w *c07Variant) { w.PreludeCwd = nil })
+	try(func(w *c07Variant) { w.SlowPlugin = 0 })
 	try(func(w *c07Variant) { w.Stale = false })
 	try(func(w *c07Variant) { w.Clock = 0 })
 	try(func(w *c07Variant) { w.OutDir = "" })
@@ -733,6 +755,9 @@ func c07Isolate(a *artefacts, f *c07Found) []*c07Found {
 		}
 		if v.Block != "" && len(v.Prelude) > 0 {
 			d = append(d, "failed-earlier-run")
+		}
+		if v.SlowPlugin != 0 {
+			d = append(d, "plugin-pace")
 		}
 		if v.Stale {
 			d = append(d, "stale-output")
